@@ -6,4 +6,9 @@ def _quad():
     return quad.generate()
 
 
-ALL = [("QuadTables", _quad)]
+def _shapes():
+    from . import shapes
+    return shapes.generate()
+
+
+ALL = [("QuadTables", _quad), ("Shapes", _shapes)]
